@@ -224,6 +224,24 @@ def D(name, children):
     return {'k': 'd', 'name': name, 'ch': children}
 
 
+def drop_dangling(t):
+    """a tree in which every alias (second name for a sibling) still has its target: checks derive trees from trees by
+    removing entries, and an alias whose target is gone would be a dangling link, i.e. an unreadable eligible file"""
+    real = {}
+    out = []
+    for e in t:
+        if not e.get('alias_of'):
+            if e['k'] == 'd':
+                e = dict(e, ch=drop_dangling(e['ch']))
+            real[e['name']] = e
+            out.append(e)
+    for e in t:
+        if e.get('alias_of') and e['alias_of'] in real:
+            # the alias shows whatever its target holds NOW (a derived tree may have changed the target)
+            out.append(dict(real[e['alias_of']], name=e['name'], alias_of=e['alias_of']))
+    return out
+
+
 def tree_files(t, prefix=()):
     for e in t:
         if e['k'] == 'f':
@@ -257,6 +275,8 @@ def tree_json(t):
             out.append({'dir': e['name'], 'entries': tree_json(e['ch'])})
         if e.get('link'):
             out[-1]['symlink'] = True
+        if e.get('alias_of'):
+            out[-1]['alias_of'] = e['alias_of']
     return out
 
 
@@ -269,6 +289,8 @@ def tree_from_json(j):
             out.append(D(e['dir'], tree_from_json(e['entries'])))
         if e.get('symlink'):
             out[-1]['link'] = True
+        if e.get('alias_of'):
+            out[-1]['alias_of'] = e['alias_of']
     return out
 
 
@@ -299,6 +321,8 @@ def materialize(t, root, rng=None, order=None, top=None):
             tdir = top + b'.targets'
             os.makedirs(tdir, exist_ok=True)
             real = os.path.join(tdir, b'%d' % LINK_COUNTER[0])
+        if e.get('alias_of'):
+            continue                    # created below, once its target exists
         if e['k'] == 'f':
             with open(real, 'wb') as f:
                 f.write(e['data'])
@@ -306,6 +330,11 @@ def materialize(t, root, rng=None, order=None, top=None):
             materialize(e['ch'], real, rng, order, top)
         if real != p:
             os.symlink(real, p)
+    # a second name for an entry of the same directory (a relative symbolic link to a sibling): the walker sees the
+    # file / sub-directory twice, and so does the model (the alias is an entry with the same contents)
+    for e in es:
+        if e.get('alias_of'):
+            os.symlink(e['alias_of'].encode('utf-8'), os.path.join(root, e['name'].encode('utf-8')))
 
 
 ELIG_NAMES = ['A.sol', 'b.sol', 'Token.sol', 'Vault.sol', 'lib.sol', '.sol', 't.sol', 'tsol.sol', 'a b.sol', 'Ünï.sol',
@@ -363,6 +392,15 @@ def random_tree(rng, pick_content, depth=1, max_depth=4, max_entries=10, p_inert
             out.append(F(name, pick_content(rng)))
             if rng.random() < 0.06:
                 out[-1]['link'] = True          # a symbolic link to a file outside the tree
+    # now and then a second name for one of the entries (a relative link to a sibling)
+    cands = [e for e in out if not e.get('link') and not e.get('alias_of') and
+             (e['k'] == 'd' or (e['name'].endswith('.sol') and '.t.sol' not in e['name'].lower()))]
+    if cands and rng.random() < 0.15:
+        src = rng.choice(cands)
+        nm = ('Alias%d.sol' if src['k'] == 'f' else 'alias%d') % rng.randint(0, 99)
+        if nm not in used:
+            used.add(nm)
+            out.append(dict(src, name=nm, alias_of=src['name']))
     return out
 
 
@@ -371,7 +409,7 @@ class Run:
     """one call of analyze_dir: tree, category, pattern names (in order); filled by run_impl"""
 
     def __init__(self, tree, cat, ps, tag='', order=None):
-        self.tree = tree
+        self.tree = drop_dangling(tree)
         self.cat = cat
         self.ps = list(ps)
         self.tag = tag
